@@ -53,6 +53,7 @@ type ClaimSpec struct {
 	Deleting       bool   `json:"deleting,omitempty"`       // NodeClaim already carries a deletionTimestamp
 	Unhealthy      []int  `json:"unhealthy,omitempty"`      // indexes of repair policies whose condition the Node shows
 	UnhealthyStepS int    `json:"unhealthyStepS,omitempty"` // clock step before the unhealthy condition is set
+	UnhealthyGapS  int    `json:"unhealthyGapS,omitempty"`  // clock step between two unhealthy conditions of the same node
 	NoiseCond      bool   `json:"noiseCond,omitempty"`      // Node carries a policy condition type in the non-matching status
 }
 
@@ -317,7 +318,10 @@ func build(S Spec, seed int64) (*W, error) {
 			return
 		}
 		e.Clock.Step(time.Duration(c.UnhealthyStepS) * time.Second)
-		for _, pi := range c.Unhealthy {
+		for k, pi := range c.Unhealthy {
+			if k > 0 {
+				e.Clock.Step(time.Duration(c.UnhealthyGapS) * time.Second)
+			}
 			w.setNodeCond(w.Nodes[i], S.Policies[pi].Type, S.Policies[pi].Status)
 		}
 	}
@@ -449,10 +453,15 @@ func (w *W) placeClock() {
 			w.missed = true
 			return
 		}
-		p := S.Policies[c.Unhealthy[0]]
-		for _, cond := range nodes[0].Status.Conditions {
-			if string(cond.Type) == p.Type {
-				thr = cond.LastTransitionTime.Add(time.Duration(p.TolerateS) * time.Second)
+		// the boundary is the earliest moment at which any of the node's matching conditions has lasted its toleration
+		for _, pi := range c.Unhealthy {
+			p := S.Policies[pi]
+			for _, cond := range nodes[0].Status.Conditions {
+				if string(cond.Type) == p.Type && string(cond.Status) == p.Status {
+					if due := cond.LastTransitionTime.Add(time.Duration(p.TolerateS) * time.Second); thr.IsZero() || due.Before(thr) {
+						thr = due
+					}
+				}
 			}
 		}
 	}
